@@ -160,12 +160,19 @@ def check(case):
                 # a CALLABLE fails with StopIteration: whatever the library makes of it (a coroutine frame turns it
                 # into RuntimeError), it makes the same of it for every flavour of that callable
                 exc1 = "StopIteration"
+            is_src = lambda r: r == "outer" or (r.startswith("s") and r[1:].isdigit())  # noqa: E731
+            # IndexError out of a __getitem__-only sequence is that flavour's way to END, not to fail
+            seq_used = any("seq" in assign["src"] for assign in case["assigns"])
+            if exc1 == "IndexError" and is_src(res) and seq_used:
+                exc1 = "EOFError"
             work = with_fault(case, res, at, exc1)
             others = [u for u in uses if u[0] != res]
             if case.get("fault_pick2") is not None and others:
                 res2, at2 = others[case["fault_pick2"][0] % len(others)]
-                work = with_fault(work, res2, at2, case["fault_pick2"][1] if case["fault_pick2"][1] != case["fault_pick"][1]
-                                  else "LookupError")
+                exc2 = case["fault_pick2"][1] if case["fault_pick2"][1] != case["fault_pick"][1] else "LookupError"
+                if exc2 == "IndexError" and is_src(res2) and seq_used:
+                    exc2 = "OSError" if exc1 != "OSError" else "LookupError"
+                work = with_fault(work, res2, at2, exc2)
             work.pop("single", None)
             work["assigns"] = case["assigns"]
     base = apply_assign(work, baseline_assign(work))
